@@ -33,3 +33,72 @@ prop("C09", "other",
 prop("C10", "other",
      ["OWN-BALANCE", "OWN-PRIMITIVES", "CW-ALLOC-RANGE"],
      [], assumptions=TRUST)
+
+# ------------------------------------------------------------------------------------------
+from . import rules_cmp, rules_ebr, rules_rec  # noqa: E402
+
+register("CMP-DELEGATE", rules_cmp.rule_cmp_delegate)
+register("TY-SIG", rules_cmp.rule_ty_sig)
+register("EBR-PIN-VALIDATE", rules_ebr.rule_pin_validate)
+register("EBR-ADVANCE", rules_ebr.rule_advance)
+register("EBR-EPOCH-WRITERS", rules_ebr.rule_epoch_writers)
+register("EBR-EXPIRY", rules_ebr.rule_expiry)
+register("EBR-SEAL-FRESH", rules_ebr.rule_seal_fresh)
+register("EBR-COLLECT-OUTERMOST", rules_ebr.rule_collect_outermost)
+register("EBR-GUARD-COUNT", rules_ebr.rule_guard_count)
+register("EBR-REACTIVATE", rules_ebr.rule_reactivate)
+register("EBR-FINALIZE-HANDOFF", rules_ebr.rule_finalize_handoff)
+register("EBR-NO-FORGET", rules_ebr.rule_no_forget)
+register("EBR-DEFERRED-INLINE", rules_ebr.rule_deferred_inline)
+register("EBR-TLS", rules_ebr.rule_tls)
+register("EBR-LIST", rules_ebr.rule_list)
+register("EBR-QUEUE", rules_ebr.rule_queue)
+register("REC-DEPTH-GUARD", rules_rec.rule_depth_guard)
+register("REC-IMMEDIATE", rules_rec.rule_immediate)
+
+SCHED = "the schedule-quantified statement itself (that these necessary ordering/gating conditions compose under every interleaving is a model-checking question outside this family)"
+
+prop("C02", "other",
+     ["CW-STAMP-PINNED", "CW-STAMP-ON-DEC", "LINK-STAMP", "CW-CASCADE-MERGE", "CW-CASCADE-DECISION", "CW-DEFERRED-ONLY",
+      "CW-TOKEN", "EBR-COLLECT-OUTERMOST", "TY-SIG"],
+     ["the EBR grace-period argument itself (C13)", COMPOSITION],
+     witnesses=["TY-SNAPSHOT-GUARD", "TY-REACTIVATE-MUT"], assumptions=TRUST)
+prop("C05", "other",
+     ["CW-SITES", "CW-DESTRUCT-ONCE", "CW-INC-FAIL-ON-DESTRUCTED", "CW-TOKEN", "CW-SPLIT-INC-PROTECTED"],
+     ["linearisation order of racing upgrades beyond these atomicity facts"],
+     witnesses=["TY-WEAK-NO-DEREF"], assumptions=TRUST)
+prop("C06", "other",
+     ["REC-IMMEDIATE", "CW-CASCADE-DECISION", "CW-ZERO-DEFERS"],
+     ["the numeric bound on epoch advances for every shape and epoch alignment (a runtime quantity)"], assumptions=TRUST)
+prop("C07", "other",
+     ["REC-DEPTH-GUARD"],
+     ["absence of overflow for a given stack size: frame size depends on T, codegen and the user's Drop/pop_edges"],
+     assumptions=TRUST)
+prop("C08", "other",
+     ["OWN-BALANCE", "OWN-PRIMITIVES", "OWN-PROVENANCE", "CAS-EPOCH-BLIND", "LINK-STAMP", "LINK-WRITERS"],
+     ["linearizability of concurrent histories (each completed call performs one successful atomic operation on one word; "
+      "the history-level claim is not checked)"],
+     witnesses=["TY-TAKE-MUT", "TY-PRIVATE"], assumptions=TRUST)
+prop("C13", "other",
+     ["EBR-PIN-VALIDATE", "EBR-ADVANCE", "EBR-EXPIRY", "EBR-SEAL-FRESH", "EBR-COLLECT-OUTERMOST", "EBR-GUARD-COUNT",
+      "CW-DEFERRED-ONLY"],
+     [SCHED], assumptions=TRUST)
+prop("C15", "other",
+     ["EBR-NO-FORGET", "EBR-FINALIZE-HANDOFF", "EBR-DEFERRED-INLINE", "EBR-QUEUE"],
+     ["'eventually' (liveness)"], assumptions=TRUST)
+prop("C16", "other",
+     ["EBR-GUARD-COUNT", "EBR-REACTIVATE", "EBR-EPOCH-WRITERS", "EBR-COLLECT-OUTERMOST", "TY-SIG"],
+     ["re-entrancy from destructors running during collection beyond EBR-COLLECT-OUTERMOST"],
+     witnesses=["TY-REACTIVATE-MUT", "TY-GUARD-NOT-SEND"], assumptions=TRUST)
+prop("C17", "other",
+     ["EBR-QUEUE"],
+     ["FIFO order and linearizability of histories; 'empty only if empty at some instant'"], assumptions=TRUST)
+prop("C18", "other",
+     ["EBR-ADVANCE", "EBR-LIST"],
+     ["completeness of a non-stalled traversal under concurrent insert/delete (the Michael list argument)"], assumptions=TRUST)
+prop("C19", "proof",
+     ["CMP-DELEGATE"],
+     [], assumptions=["std's PartialEq/PartialOrd/Ord/Hash for Option<&T> are lawful given T's", "rustc callee resolution"])
+prop("C20", "other",
+     ["EBR-TLS", "EBR-FINALIZE-HANDOFF", "EBR-NO-FORGET"],
+     ["deadlock freedom and every TLS destruction order"], assumptions=TRUST)
